@@ -69,8 +69,14 @@ def check(mon, ev):
     if not all(in_domain(abs(c) / (i + 1)) for i, c in enumerate(C)):
         mon.count("out_of_domain")
         return
-    if not all(finite(v) for v in ind + F + dF):
+    # the additive constant F[0] = knot.y - indefinite.evaluate(knot.x) is only required to be finite when that
+    # evaluation is inside the domain (no overflowing term); the other coefficients are c_i/(i+1)
+    knot_in_domain = dom([Fraction(0)] + [C[i] / (i + 1) for i in range(n + 1)], fr(kx)) is not None and in_domain(abs(fr(ky)))
+    if not all(finite(v) for v in ind + F[1:] + dF) or (knot_in_domain and not finite(F[0])):
         mon.violation("integral returns a non-finite coefficient on finite input", wit)
+        return
+    if not finite(F[0]):
+        mon.count("out_of_domain")
         return
     # ---- indefinite(): zero constant, c_i/(i+1)
     if ind[0] != 0:
